@@ -110,6 +110,34 @@ def expandSearch (pr : Prism) (al : Bytes) (key : Bytes) (limit : Nat) : List (N
     if limit = 0 then all else all.take limit
   else []
 
+/-! ### the alphabet `ExpandSearch` walks -/
+
+/-- `kDefaultAlphabet` (prism.cc): `"abcdefghijklmnopqrstuvwxyz"` -/
+def kDefaultAlphabet : Bytes := (List.range 26).map fun i => UInt8.ofNat (97 + i)
+
+/-- position of a byte in the order of `set<char>`; `char` is signed on the x86-64 build checked
+here, so 0x80‥0xff come before 0x00‥0x7f -/
+def charKey (b : UInt8) : Nat := (b.toNat + 128) % 256
+
+/-- `set<char>::insert` on the ascending list of the set's elements -/
+def insertChar (c : UInt8) : Bytes → Bytes
+  | [] => [c]
+  | d :: t => if c = d then d :: t else if charKey c < charKey d then c :: d :: t else d :: insertChar c t
+
+/-- the alphabet `Prism::Build` writes into the metadata: the `set<char>` of every character of
+every spelling (`for i < num_spellings: for p in keys[i]: alphabet.insert(*p)`) -/
+def buildAlphabet (pr : Prism) : Bytes := (pr.flatMap (·.1)).foldl (fun s c => insertChar c s) []
+
+/-- the characters `Prism::ExpandSearch` tries below a node:
+`(format_ > 1.0 - DBL_EPSILON) ? metadata_->alphabet : kDefaultAlphabet`.
+`format_` is a member initialised to 0.0; `Build` writes the tag `Rime::Prism/3.0` into the file but
+leaves the member alone, `Load` parses it from the tag (3.0 for a file written by this version).
+So `loaded = true` — the object was `Load`ed from a saved file, what every deployed prism is —
+walks the stored alphabet, and an object that only ran `Build` walks a–z whatever its spellings
+are made of.  Whether the prism carries a spelling map plays no role. -/
+def searchAlphabet (loaded : Bool) (pr : Prism) : Bytes :=
+  if loaded then buildAlphabet pr else kDefaultAlphabet
+
 /-! ### forward search -/
 
 /-- `while (end_pos < input.length() && delimiters_.find(input[end_pos]) != npos) ++end_pos;` -/
